@@ -13,7 +13,6 @@ LIB_THROWS = {
     'std::stod': {'std::invalid_argument', 'std::out_of_range'}, 'std::stoi': {'std::invalid_argument', 'std::out_of_range'},
     'std::stol': {'std::invalid_argument', 'std::out_of_range'}, 'std::stoul': {'std::invalid_argument', 'std::out_of_range'},
     'boost::math::tools::toms748_solve': {'std::exception'}, 'toms748_solve': {'std::exception'},
-    'boost::lexical_cast': {'std::exception'}, 'lexical_cast': {'std::exception'},
 }
 STD_BASES = {'std::invalid_argument': 'std::logic_error', 'std::out_of_range': 'std::logic_error', 'std::logic_error': 'std::exception',
              'std::runtime_error': 'std::exception', 'std::domain_error': 'std::logic_error', 'std::bad_alloc': 'std::exception'}
@@ -62,7 +61,7 @@ class Effects:
                 self.unparsed.add(fd.qname)
                 r = {'*'}
             else:
-                env = {'__cls': fd.cls}
+                env = {'__cls': fd.cls, '__file': fd.file}
                 for p in fd.params:
                     if p.name:
                         env[p.name] = strip_ns(p.type.name)
@@ -287,6 +286,13 @@ class Effects:
             elif isinstance(e.f, Id):
                 n = e.f.name
                 s = strip_ns(n)
+                this_cls0 = env.get('__cls')
+                if this_cls0 and '::' not in s and any(d.name == s for d in self.w.members(this_cls0)) and not self.w.find_method(this_cls0, s):
+                    # call through a std::function data member: any functor (operator()) defined in the same file may be its target
+                    for fd2 in self.w.by_last.get('operator()', []):
+                        if fd2.file == env.get('__file'):
+                            out |= self.fn_throws(fd2)
+                    return out
                 if s in env and env[s] not in self.w.classes:
                     return out          # local callable (lambda analysed where defined)
                 this_cls = env.get('__cls')
